@@ -20,7 +20,7 @@ def shards(tier, seed):
     out = []
     k = 5 if tier == "quick" else 9
     for L in T.LETTERS:
-        out.append({"name": "constructors-" + L, "kind": "cons", "letter": L, "k": k,
+        out.append({"name": "constructors-" + L, "kind": "cons", "letter": L, "k": k, "after_history": L in "CF",
                     "pure": 12 if tier == "quick" else 40, "weight": 8})
     kp = 4 if tier == "quick" else 6
     for L in T.LETTERS:
